@@ -704,6 +704,26 @@ Section Pace.
         - rewrite Htd. reflexivity. }
       unfold obs_of in *. cbn [fst snd] in *. destruct res; try contradiction; exact G.
   Qed.
+  (* C10 liveness clause: a hang is impossible while a stagger delay is configured and some
+     candidate has not been started (a fortiori one that would accept) *)
+  Theorem clause_hang res td lg (HF : Final c atts res td lg) (HU : Unstarted res td lg) :
+    s_hang c atts (obs_of res td lg) = true.
+  Proof.
+    pose proof (start_of_eq c atts res td lg HF) as Hso.
+    unfold s_hang, obs_of in *. cbn [fst snd].
+    destruct HF as [sm r Hsm Hin Hf Hout|s Hs Hp Hr Hn|sm d Hsm Hp Hd Hall|sm Hsm Hp Hd Hall]; auto.
+    { destruct (err s); reflexivity. }
+    destruct (c_delay c) as [dl|] eqn:Ed; [|reflexivity].
+    assert (Hall' : (length atts <= nstarted sm)%nat).
+    { destruct (Nat.lt_ge_cases (nstarted sm) (length atts)) as [Hlt|Hge]; [|exact Hge]. exfalso.
+      destruct (HU Hlt) as [HA HB]. fold (nstarted sm) in HA, HB.
+      destruct (Nat.lt_ge_cases (nstarted sm) m) as [Hk|Hk].
+      - destruct (HA Hk) as [[i Hi] _]. discriminate.
+      - destruct (HB Hk) as (w & _ & Hnone). congruence. }
+    apply forallb_forall. intros i Hi. apply in_seq in Hi.
+    destruct (started_has sm i Hsm ltac:(lia)) as [ts Hts].
+    rewrite (Hso i ts Hts). reflexivity.
+  Qed.
 End Pace.
 
 (* ---------- packaged results ---------- *)
@@ -734,4 +754,17 @@ Proof.
   pose proof (mon_C11_proved_holds c tb atts) as H. unfold mon_C11_proved in H.
   apply andb_true_iff in H. destruct H as [H H3]. apply andb_true_iff in H. destruct H as [H1 H2].
   rewrite H1, H2, H3, (s_pace_holds c tb atts), (s_unstarted_holds c tb atts). reflexivity.
+Qed.
+
+Theorem s_hang_holds c tb atts : s_hang c atts (he_obs c tb atts) = true.
+Proof.
+  destruct (he_obs_post c tb atts) as (res & td & lg & E & HF & _ & HU). rewrite E.
+  exact (clause_hang c atts res td lg HF HU).
+Qed.
+
+Theorem mon_C10_holds : forall c tb atts, mon_C10 c atts (he_obs c tb atts) = true.
+Proof.
+  intros c tb atts. unfold mon_C10.
+  pose proof (mon_C10_core_holds c tb atts) as H. unfold mon_C10_core in H.
+  rewrite H, (s_hang_holds c tb atts). reflexivity.
 Qed.
